@@ -228,6 +228,11 @@ class AsyncZeroconf:
                 await asyncio.wait_for(self.zeroconf.async_wait_for_start(), timeout=1)
         await self.async_remove_all_service_listeners()
         await self.async_unregister_all_services()
+        # A registration that was still checking its name when the shutdown
+        # started may have completed and announced the service while the
+        # goodbye packets above were being sent; it has to be withdrawn as well.
+        while self.zeroconf.registry.has_entries:
+            await self.async_unregister_all_services()
         await self.zeroconf._async_close()  # pylint: disable=protected-access
 
     async def async_get_service_info(
